@@ -133,6 +133,23 @@ def completionAdditionalEdits [DecidableEq α] {ν : Type} [DecidableEq ν] (loc
     Option (List TextEdit) :=
   if available.contains n || isRoot then some [] else autoImportEdits locs rnd imports x
 
+/-- `rewrite::code_actions` (lib.rs:505-530): for a `CannotResolveClass { module_reference = lookup,
+name }` error of document `docModule`, the quick fix "Import `name` from `M`" is offered iff the
+error's location covers the requested range, the class was looked up in the document itself
+(`lookup = docModule`: the name is not imported at all — when it is imported from a module that does
+not export it, `lookup` is that module and nothing is offered), and `M` declares the name. -/
+def codeActionOffered {μ : Type} [DecidableEq μ] (covers : Bool) (lookup docModule : μ)
+    (declaresName : Bool) : Bool :=
+  covers && decide (lookup = docModule) && declaresName
+
+/-- The edits of an offered quick fix are the auto-import edits computed on the error's `lookup`
+module, i.e. (because of the guard) on the document's own import list. -/
+def codeActionEdits [DecidableEq α] {μ : Type} [DecidableEq μ] (covers : Bool) (lookup docModule : μ)
+    (declaresName : Bool) (docLocs : List (Pos × Pos)) (rnd : α → Text) (docImports : List α) (x : α) :
+    Option (List TextEdit) :=
+  if codeActionOffered covers lookup docModule declaresName then autoImportEdits docLocs rnd docImports x
+  else none
+
 /-! ## Expected text, as chunks -/
 
 /-- A piece of the edited document: `some a` = the text of item `a`, `none` = text between items. -/
